@@ -559,12 +559,13 @@ theorem inv1_tickSm (s : Sys) (m : Nat) (hl : s.legacy = false) (hm : m < s.G * 
       split
       · rename_i e
         subst e
-        refine child_acct (M := get s.l2 m) (fin3 := fin) hr ht (dispatch_unfin _) hM.unfin_pos rfl rfl
+        refine child_acct (M := get s.l2 m) (fin3 := fin) hr ht (dispatch_unfin _) hM.unfin_pos rfl ?_
           ?_ ?_ (h.lv1 g hgG)
+        · show parBusy (get s.l2 (g * s.S + j)).unfin (get s.sms (g * s.S + j)).fin = _
+          rw [show g * s.S + j = m from hidx]
         · show busy1 s1 g j = _
           simp only [busy1, s1]
           rw [show g * s.S + j = m from hidx, get_upd_self, get_upd_self]
-          rfl
         · intro k hk hkj
           have hne : g * s.S + k ≠ m := fun e => hkj ((sub_index hk).1 e).2
           simp only [busy1, s1, get_upd_ne _ _ _ _ hne]
@@ -590,5 +591,390 @@ theorem inv1_tickSm (s : Sys) (m : Nat) (hl : s.legacy = false) (hm : m < s.G * 
     · apply Frame1.wakeManySm
       exact (Frame1.refl s1).wakeGpu _
     · exact Frame1.refl _
+
+theorem inv1_tickDriver (s : Sys) (h : Inv1 s) : Inv1 (tickDriver s) := by
+  unfold tickDriver
+  extract_lets d p s1
+  have h1 : Inv1 s1 := ⟨h.lv0.dispatch.procUp, h.lv1, h.lv2⟩
+  refine Inv1.frame ?_ h1
+  apply Frame1.ite
+  · apply Frame1.wakeManyGpu
+    exact Frame1.refl _
+  · exact Frame1.refl _
+
+theorem inv1_tickConn0 (s : Sys) (h : Inv1 s) : Inv1 (tickConn0 s) := by
+  unfold tickConn0
+  extract_lets o s1
+  have h1 : Inv1 s1 := ⟨h.lv0.connTick, h.lv1, h.lv2⟩
+  refine Inv1.frame ?_ h1
+  apply Frame1.wakeManyGpu
+  exact Frame1.refl _
+
+theorem inv1_tickConn1 (s : Sys) (g : Nat) (h : Inv1 s) : Inv1 (tickConn1 s g) := by
+  unfold tickConn1
+  extract_lets o s1 s2
+  have hpf := connTick_parent_fields (get s.l1 g)
+  have h1 : Inv1 s1 := by
+    refine ⟨?_, ?_, h.lv2⟩
+    · show LInv1 s.l0 s.G (busy0 s1)
+      refine h.lv0.congr ?_
+      intro k _
+      simp only [busy0, s1, get_upd]
+      split
+      · rename_i e; rw [e]; exact congrArg (fun x => parBusy x _) hpf.2.2.1
+      · rfl
+    · intro g' hg'
+      show LInv1 (get (upd s.l1 g o.l) g') s.S (busy1 s g')
+      rw [get_upd]
+      split
+      · rename_i e; subst e; exact (h.lv1 g' hg').connTick
+      · exact h.lv1 g' hg'
+  refine Inv1.frame ?_ h1
+  apply Frame1.wakeManySm
+  apply Frame1.ite
+  · exact (Frame1.refl s1).wakeGpu _
+  · exact Frame1.refl _
+
+theorem inv1_tickConn2 (s : Sys) (m : Nat) (h : Inv1 s) :
+    Inv1 (tickConn2 s m) := by
+  unfold tickConn2
+  extract_lets o s1 s2
+  have hpf := connTick_parent_fields (get s.l2 m)
+  have h1 : Inv1 s1 := by
+    refine ⟨h.lv0, ?_, ?_⟩
+    · intro g' hg'
+      show LInv1 (get s.l1 g') s.S (busy1 s1 g')
+      refine (h.lv1 g' hg').congr ?_
+      intro k _
+      simp only [busy1, s1, get_upd]
+      split
+      · rename_i e; rw [e]; exact congrArg (fun x => parBusy x _) hpf.2.2.1
+      · rfl
+    · intro m' hm'
+      show LInv1 (get (upd s.l2 m o.l) m') s.C (busy2 s m')
+      rw [get_upd]
+      split
+      · rename_i e; subst e; exact (h.lv2 m' hm').connTick
+      · exact h.lv2 m' hm'
+  refine Inv1.frame ?_ h1
+  apply Frame1.wakeManySub
+  apply Frame1.ite
+  · exact (Frame1.refl s1).wakeSm _
+  · exact Frame1.refl _
+
+/-! ### sub-core tick: the SM layer keeps its parent-side fields, occupancy comes from `excl_tickSub` -/
+
+structure SubFrame (a b : Sys) : Prop where
+  l0 : b.l0 = a.l0
+  l1 : b.l1 = a.l1
+  G : b.G = a.G
+  S : b.S = a.S
+  C : b.C = a.C
+  gfin : ∀ k, (get b.gpus k).fin = (get a.gpus k).fin
+  sfin : ∀ k, (get b.sms k).fin = (get a.sms k).fin
+  par : ∀ m, ParSame (get a.l2 m) (get b.l2 m)
+
+theorem SubFrame.frame {a b c : Sys} (h : SubFrame a b) (f : Frame1 b c) : SubFrame a c :=
+  ⟨f.l0.trans h.l0, f.l1.trans h.l1, f.G.trans h.G, f.S.trans h.S, f.C.trans h.C,
+    fun k => (f.gfin k).trans (h.gfin k), fun k => (f.sfin k).trans (h.sfin k),
+    fun m => by rw [f.l2]; exact h.par m⟩
+
+theorem Inv1.excl {s : Sys} (h : Inv1 s) : Excl s := fun m j hm hj => (h.lv2 m hm).occ1 j hj
+
+theorem Inv1.subFrame {a b : Sys} (f : SubFrame a b) (he : Excl b) (h : Inv1 a) : Inv1 b := by
+  refine ⟨?_, ?_, ?_⟩
+  · rw [f.l0, f.G]
+    refine h.lv0.congr ?_
+    intro j _
+    simp only [busy0, f.l1, f.gfin]
+  · intro g hg
+    rw [f.G] at hg
+    rw [f.l1, f.S]
+    refine (h.lv1 g hg).congr ?_
+    intro j _
+    simp only [busy1, f.S, (f.par _).unfin, f.sfin]
+  · intro m hm
+    have hm' : m < a.G * a.S := by rw [← f.G, ← f.S]; exact hm
+    have := (h.lv2 m hm').parSame (b' := busy2 b m) (f.par m)
+      (fun j hj => he m j hm (by rw [f.C]; exact hj))
+    rw [f.C]; exact this
+
+theorem subFrame_upd (s : Sys) (m : Nat) (l' : Level Warp) (subs' : List Sub)
+    (hp : ParSame (get s.l2 m) l') : SubFrame s { s with l2 := upd s.l2 m l', subs := subs' } := by
+  refine ⟨rfl, rfl, rfl, rfl, rfl, fun _ => rfl, fun _ => rfl, ?_⟩
+  intro m'
+  show ParSame (get s.l2 m') (get (upd s.l2 m l') m')
+  rw [get_upd]
+  split
+  · rename_i e; subst e; exact hp
+  · exact ParSame.refl _
+
+theorem inv1_tickSub (s : Sys) (u : Nat) (hl : s.legacy = false) (h : Inv1 s) :
+    Inv1 (tickSub s u) := by
+  refine Inv1.subFrame ?_ (excl_tickSub s u hl h.excl) h
+  unfold tickSub
+  extract_lets m j sc lm r q
+  have hr : ParSame lm r.1 := by
+    simp only [r]
+    split
+    · exact ParSame.refl _
+    · split
+      · exact ParSame.refl _
+      · rename_i l' hs
+        exact parSame_childSend hs
+  split
+  · exact subFrame_upd s m r.1 _ hr
+  · rename_i n lm' wf ht
+    dsimp only
+    refine (subFrame_upd s m lm' ?SB (hr.trans (parSame_childTake ht))).frame ?FR1
+    case FR1 =>
+      apply Frame1.ite
+      · apply Frame1.wakeManySub
+        exact (Frame1.refl _).wakeSm _
+      · exact Frame1.refl _
+
+/-! ## the invariant holds initially and along every in-range run -/
+
+theorem inv1_init (G S C : Nat) (trace : List Kernel) : Inv1 (init false G S C trace) := by
+  have hdN : (default : Nat) = 0 := rfl
+  refine ⟨?_, ?_, ?_⟩
+  · refine ⟨rfl, ?_, ?_, ?_, ?_, ?_⟩
+    · intro j hj
+      have hj' : j < G := hj
+      have hdK : (default : List Kernel) = [] := rfl
+      simp only [init, occ, mkLevel, busy0]
+      rw [get_replicate _ _ _ hj', get_replicate _ _ _ hj']
+      simp [get_nil, parBusy, hj', hdK, hdN]
+    · simp [init, mkLevel]
+    · intro j hj; exact List.mem_range.1 hj
+    · intro p hp; cases hp
+    · intro j hj; cases hj
+  · intro g hg
+    have hg' : g < G := hg
+    show LInv1 (get (List.replicate G (mkLevel S)) g) S (busy1 (init false G S C trace) g)
+    rw [get_replicate _ _ _ hg']
+    refine ⟨rfl, ?_, ?_, ?_, ?_, ?_⟩
+    · intro j hj
+      have hidx : g * S + j < G * S := by
+        calc g * S + j < g * S + S := by omega
+          _ = (g + 1) * S := by rw [Nat.add_mul, Nat.one_mul]
+          _ ≤ G * S := Nat.mul_le_mul_right _ hg'
+      have hdB : (default : List Block) = [] := rfl
+      simp only [init, occ, mkLevel, busy1]
+      rw [get_replicate _ _ _ hidx, get_replicate _ _ _ hidx]
+      simp [get_nil, parBusy, hj, hdB, hdN]
+    · simp [mkLevel]
+    · intro j hj; exact List.mem_range.1 hj
+    · intro p hp; cases hp
+    · intro j hj; cases hj
+  · intro m hm
+    have hm' : m < G * S := hm
+    have he := excl_init G S C trace
+    refine ⟨?_, fun j hj => he m j hm hj, ?_, ?_, ?_, ?_⟩ <;>
+      (show _; simp only [init]; rw [get_replicate _ _ _ hm'])
+    · rfl
+    · simp [mkLevel]
+    · intro j hj; exact List.mem_range.1 hj
+    · intro p hp; cases hp
+    · intro j hj; cases hj
+
+theorem inv1_step (s : Sys) (e : Ev) (hl : s.legacy = false) (he : e.InRange s.G s.S s.C)
+    (h : Inv1 s) : Inv1 (step s e) := by
+  cases e with
+  | drv => exact inv1_tickDriver s h
+  | gpu g => exact inv1_tickGpu s g hl he h
+  | sm m => exact inv1_tickSm s m hl he h
+  | sub u => exact inv1_tickSub s u hl h
+  | c0 => exact inv1_tickConn0 s h
+  | c1 g => exact inv1_tickConn1 s g h
+  | c2 m => exact inv1_tickConn2 s m h
+
+theorem inv1_run_gen (s : Sys) (evs : List Ev) (hl : s.legacy = false)
+    (he : ∀ e ∈ evs, e.InRange s.G s.S s.C) (h : Inv1 s) : Inv1 (run s evs) := by
+  induction evs generalizing s with
+  | nil => exact h
+  | cons e evs ih =>
+    have hsh := shape_step s e
+    refine ih (step s e) (hsh.legacy.trans hl) ?_
+      (inv1_step s e hl (he e (List.mem_cons_self ..)) h)
+    intro e' he'
+    rw [hsh.G, hsh.S, hsh.C]
+    exact he e' (List.mem_cons_of_mem _ he')
+
+theorem inv1_run (G S C : Nat) (trace : List Kernel) (evs : List Ev)
+    (he : ∀ e ∈ evs, e.InRange G S C) : Inv1 (run (init false G S C trace) evs) :=
+  inv1_run_gen _ evs rfl he (inv1_init G S C trace)
+
+/-! ## out-of-range events are harmless: the `InRange` hypothesis can be dropped -/
+
+/-- a "child" whose index is not below `n` does not disturb the accounting of the real children -/
+theorem child_acct_out {β : Type} {L L1 L' : Level (List β)} {M2 Md : Level β}
+    {i fin fin1 fin2 n : Nat} {b b' : Nat → Nat}
+    (hr : (L1 = L ∧ fin1 = fin) ∨ (L.childSend i = some L1 ∧ fin1 + 1 = fin))
+    (ht : (L' = L1 ∧ M2 = Md ∧ fin2 = fin1) ∨
+          (∃ k wf, L1.childTake i = some (k, L', wf) ∧
+             M2 = { Md with undisp := Md.undisp ++ k, unfin := Md.unfin + k.length } ∧
+             fin2 = if k.isEmpty = true then fin1 + 1 else fin1))
+    (hi : n ≤ i) (hbo : ∀ j, j < n → b' j = b j) (hL : LInv1 L n b) : LInv1 L' n b' := by
+  refine hL.parSame (child_parSame hr ht) ?_
+  intro j hj
+  have hji : j ≠ i := by omega
+  have h1 : occ L1 b j = 1 := by
+    rw [← hL.occ1 j hj]
+    rcases hr with ⟨e, _⟩ | ⟨e, _⟩
+    · rw [e]
+    · exact occ_childSend e b b j (by simp [hji])
+  rw [← h1]
+  rcases ht with ⟨e, _, _⟩ | ⟨k, wf, e, _, _⟩
+  · rw [e]; exact occ_congr _ (hbo j hj)
+  · exact occ_childTake e b b' j (by simp [hji, hbo j hj])
+
+theorem inv1_tickGpu_out (s : Sys) (g : Nat) (hl : s.legacy = false) (hg : ¬ g < s.G) (h : Inv1 s) :
+    Inv1 (tickGpu s g) := by
+  unfold tickGpu
+  extract_lets gp r d p2 d1 t p fin s1 s2
+  have hr : (r.1 = s.l0 ∧ r.2.1 = gp.fin) ∨ (s.l0.childSend g = some r.1 ∧ r.2.1 + 1 = gp.fin) := by
+    simp only [r]
+    split
+    · left; exact ⟨rfl, rfl⟩
+    · split
+      · left; exact ⟨rfl, rfl⟩
+      · rename_i hfin _ l' hs
+        right; exact ⟨hs, by simp only; omega⟩
+  have ht : (t.1 = r.1 ∧ t.2.1 = d.1 ∧ t.2.2.1 = r.2.1) ∨
+      (∃ k wf, r.1.childTake g = some (k, t.1, wf) ∧
+        t.2.1 = { d.1 with undisp := d.1.undisp ++ k, unfin := d.1.unfin + k.length } ∧
+        t.2.2.1 = if k.isEmpty = true then r.2.1 + 1 else r.2.1) := by
+    simp only [t]
+    split
+    · left; exact ⟨rfl, rfl, rfl⟩
+    · rename_i k l0' wf hk
+      right
+      refine ⟨k, wf, hk, rfl, ?_⟩
+      simp [hl]
+  have h1 : Inv1 s1 := by
+    refine ⟨?_, ?_, h.lv2⟩
+    · show LInv1 t.1 s.G (busy0 s1)
+      refine child_acct_out hr ht (by omega) ?_ h.lv0
+      intro j hj
+      have hne : j ≠ g := by omega
+      simp only [busy0, s1, get_upd_ne _ _ _ _ hne]
+    · intro g' hg'
+      show LInv1 (get (upd s.l1 g p.1) g') s.S (busy1 s g')
+      have hg'' : g' < s.G := hg'
+      have hne : g' ≠ g := by omega
+      rw [get_upd_ne _ _ _ _ hne]
+      exact h.lv1 g' hg'
+  refine Inv1.frame ?_ h1
+  apply Frame1.ite
+  · apply Frame1.wakeManySm
+    apply Frame1.ite
+    · apply Frame1.wakeManyGpu
+      exact (Frame1.refl s1).dAwake true
+    · exact Frame1.refl _
+  · apply Frame1.ite
+    · apply Frame1.wakeManyGpu
+      exact (Frame1.refl s1).dAwake true
+    · exact Frame1.refl _
+
+theorem inv1_tickSm_out (s : Sys) (m : Nat) (hl : s.legacy = false) (hm : ¬ m < s.G * s.S)
+    (h : Inv1 s) : Inv1 (tickSm s m) := by
+  unfold tickSm
+  extract_lets g j sm lg r d p2 d1 t p fin s1 s2
+  have hr : (r.1 = lg ∧ r.2.1 = sm.fin) ∨ (lg.childSend j = some r.1 ∧ r.2.1 + 1 = sm.fin) := by
+    simp only [r]
+    split
+    · left; exact ⟨rfl, rfl⟩
+    · split
+      · left; exact ⟨rfl, rfl⟩
+      · rename_i hfin _ l' hs
+        right; exact ⟨hs, by simp only; omega⟩
+  have ht : (t.1 = r.1 ∧ t.2.1 = d.1 ∧ t.2.2.1 = r.2.1) ∨
+      (∃ k wf, r.1.childTake j = some (k, t.1, wf) ∧
+        t.2.1 = { d.1 with undisp := d.1.undisp ++ k, unfin := d.1.unfin + k.length } ∧
+        t.2.2.1 = if k.isEmpty = true then r.2.1 + 1 else r.2.1) := by
+    simp only [t]
+    split
+    · left; exact ⟨rfl, rfl, rfl⟩
+    · rename_i k l0' wf hk
+      right
+      refine ⟨k, wf, hk, rfl, ?_⟩
+      simp [hl]
+  have hps : ParSame lg t.1 := child_parSame hr ht
+  have h1 : Inv1 s1 := by
+    refine ⟨?_, ?_, ?_⟩
+    · show LInv1 s.l0 s.G (busy0 s1)
+      refine h.lv0.congr ?_
+      intro k _
+      simp only [busy0, s1, get_upd]
+      split
+      · rename_i e; rw [hps.unfin, e]
+      · rfl
+    · intro g' hg'
+      show LInv1 (get (upd s.l1 g t.1) g') s.S (busy1 s1 g')
+      rw [get_upd]
+      split
+      · rename_i e
+        subst e
+        have hS : s.S = 0 := by
+          rcases Nat.eq_zero_or_pos s.S with h0 | h0
+          · exact h0
+          · exfalso
+            have : s.G ≤ m / s.S := (Nat.le_div_iff_mul_le h0).2 (by omega)
+            exact absurd hg' (by show ¬ m / s.S < s.G; omega)
+        refine child_acct_out hr ht (by omega) ?_ (h.lv1 g hg')
+        intro k hk
+        omega
+      · rename_i hne
+        refine (h.lv1 g' hg').congr ?_
+        intro k hk
+        have hne : g' * s.S + k ≠ m := fun e => hne ((sub_index hk).1 e).1
+        simp only [busy1, s1, get_upd_ne _ _ _ _ hne]
+    · intro m' hm'
+      show LInv1 (get (upd s.l2 m p.1) m') s.C (busy2 s m')
+      have hm'' : m' < s.G * s.S := hm'
+      have hne : m' ≠ m := by omega
+      rw [get_upd_ne _ _ _ _ hne]
+      exact h.lv2 m' hm'
+  refine Inv1.frame ?_ h1
+  apply Frame1.ite
+  · apply Frame1.wakeManySub
+    apply Frame1.ite
+    · apply Frame1.wakeManySm
+      exact (Frame1.refl s1).wakeGpu _
+    · exact Frame1.refl _
+  · apply Frame1.ite
+    · apply Frame1.wakeManySm
+      exact (Frame1.refl s1).wakeGpu _
+    · exact Frame1.refl _
+
+/-- `Inv1` is preserved by every event, in range or not -/
+theorem inv1_step' (s : Sys) (e : Ev) (hl : s.legacy = false) (h : Inv1 s) : Inv1 (step s e) := by
+  cases e with
+  | drv => exact inv1_tickDriver s h
+  | gpu g =>
+    by_cases hg : g < s.G
+    · exact inv1_tickGpu s g hl hg h
+    · exact inv1_tickGpu_out s g hl hg h
+  | sm m =>
+    by_cases hm : m < s.G * s.S
+    · exact inv1_tickSm s m hl hm h
+    · exact inv1_tickSm_out s m hl hm h
+  | sub u => exact inv1_tickSub s u hl h
+  | c0 => exact inv1_tickConn0 s h
+  | c1 g => exact inv1_tickConn1 s g h
+  | c2 m => exact inv1_tickConn2 s m h
+
+theorem inv1_run_gen' (s : Sys) (evs : List Ev) (hl : s.legacy = false) (h : Inv1 s) :
+    Inv1 (run s evs) := by
+  induction evs generalizing s with
+  | nil => exact h
+  | cons e evs ih =>
+    exact ih (step s e) ((shape_step s e).legacy.trans hl) (inv1_step' s e hl h)
+
+/-- `Inv1` holds along every event sequence whatsoever of the repaired code -/
+theorem inv1_run' (G S C : Nat) (trace : List Kernel) (evs : List Ev) :
+    Inv1 (run (init false G S C trace) evs) :=
+  inv1_run_gen' _ evs rfl (inv1_init G S C trace)
 
 end C20
